@@ -141,6 +141,24 @@ def time_ordered_arguments(ctx, rule='C06-R1'):
                   facts={'argument': T.show(vals, maxlen=400)},
                   instance=f'{label.split(":")[0]} -> {e.func.qname.split(".")[-1]}: time-ordered heights')
     ctx.floor(rule, 'calc_base_height call sites (inlined)', len(seen), 3)
+    # sibling agreement: every site orders the hits by the very same call (an unstable sort at one site and a stable one
+    # at another put hits with equal time stamps in different orders, and the look-back cuts through the ties differently)
+    how = {}
+    for label, e, vals, lb, hp, ex in sites:
+        for x in T.walk(vals):
+            if tag(x) == 'mcall' and x[2] == 'sort_values' and x[1] == DATA:
+                how.setdefault((x[3], x[4]), (label, e))
+    if len(how) > 1:
+        (a, (la, ea)), (b, (lb_, eb)) = list(how.items())[:2]
+        ctx.violation(rule, eb.func.qname, eb.node, eb.loc(),
+                      f"the hits are time-ordered by sort_values{T.show(('tuple', a[0]), maxlen=40)} {dict(a[1]) and T.show(('dict', tuple((C(k), v) for k, v in a[1])), maxlen=60)} "
+                      f"for {la.split(':')[0]} and by sort_values{T.show(('tuple', b[0]), maxlen=40)} "
+                      f"{dict(b[1]) and T.show(('dict', tuple((C(k), v) for k, v in b[1])), maxlen=60)} for {lb_.split(':')[0]}: "
+                      'hits sharing a time stamp are ordered differently at the two sites, so with a look-back below 100 % the '
+                      'separation is decided on other hits than the ones the reported base is computed from',
+                      instance='all base-height sites order the hits by the same sort call')
+    else:
+        ctx.ok(rule, 'all base-height sites order the hits by the same sort call')
 
 
 def same_selection_at_decision_time(ctx, rule='C06-R2'):
@@ -369,6 +387,14 @@ def no_write_after_merge(ctx, rule='C06-R5'):
               instance='find_groups merges close groups once')
     if not mc:
         return
+    # every completed find_groups() went through the merge: the call is made under no other condition than having got
+    # that far (a merge skipped "because no slices overlap" leaves isolated thin decks closer than the separation)
+    tail = [e for e in evs if e.seq > mc[0].seq and not e.loops and e.kind in ('call', 'store', 'assign', 'return')]
+    done = tail[-1].guard if tail else mc[0].guard
+    ctx.check(T.implies(done, mc[0].guard) is True, rule, FG, mc[0].node, mc[0].loc(),
+              f'_merge_close_groups is only called under {T.show(mc[0].guard, maxlen=160)}: find_groups can complete '
+              'without the groups having been brought the minimum separation apart',
+              instance='find_groups: the merge is on every path to completion')
     later = [e for e in evs if e.seq > mc[0].seq and e.kind in ('store', 'aug', 'mutcall', 'del')
              and e.base is not None and T.root(e.base) == DATA]
     ctx.check(not later, rule, FG, later[0].node if later else f.node.name, f.loc(),
